@@ -14,9 +14,9 @@ Lemma line_push_gen b o s : os_line (os_push_gen b o s) = os_line o.
 Proof. reflexivity. Qed.
 Lemma line_push_newline f o ind : os_line (os_push_newline f o ind) = S (os_line o).
 Proof. unfold os_push_newline. destruct ind as [[n|]|]; reflexivity. Qed.
-Lemma line_push_string f o s : os_line (os_push_string f o s) = os_line o + (length (splitlines s) - 1).
+Lemma line_push_string f o s : os_line (os_push_string f o s) = os_line o + (length (split_crlf s) - 1).
 Proof.
-  unfold os_push_string. destruct (splitlines s) as [|l0 ls]; [cbn; lia|].
+  unfold os_push_string. destruct (split_crlf s) as [|l0 ls]; [cbn; lia|].
   assert (G : forall ls o', os_line (fold_left (fun o'' l => os_push (os_push_newline f o'' (Some None)) l) ls o')
                             = os_line o' + length ls).
   { induction ls0 as [|l ls0 IH]; intros o'; cbn [fold_left length]; [lia|]. rewrite IH. unfold os_push.
@@ -25,7 +25,7 @@ Proof.
 Qed.
 
 Definition token_lines (toks : list vtok) : nat :=
-  fold_right (fun t k => match t with VStr s => length (splitlines s) - 1 | VField _ nm => lf_count nm end + k) 0 toks.
+  fold_right (fun t k => match t with VStr s => length (split_crlf s) - 1 | VField _ nm => lf_count nm end + k) 0 toks.
 
 Lemma line_push_tokens c toks st : ln (push_tokens c toks st) = ln st + token_lines toks.
 Proof.
@@ -43,7 +43,7 @@ Proof.
   destruct (fold_left _ toks (fs_out st, None)) as [out largest]. cbn [fst] in G. cbn [fs_out]. exact G.
 Qed.
 
-Lemma line_push_str c s st : ln (push_str c s st) = ln st + (length (splitlines s) - 1).
+Lemma line_push_str c s st : ln (push_str c s st) = ln st + (length (split_crlf s) - 1).
 Proof. unfold ln, push_str. cbn [fs_out]. apply line_push_string. Qed.
 
 (* should_format does not look at the self-closing style *)
@@ -247,7 +247,7 @@ Proof.
   destruct (str_eqb (oc_self_closing_style c0) s_xhtml); [reflexivity|].
   destruct (str_eqb (oc_self_closing_style c0) s_xml); reflexivity.
 Qed.
-Lemma mark_lines c0 : length (splitlines (self_close c0 ++ [c_gt])) - 1 = 0.
+Lemma mark_lines c0 : length (split_crlf (self_close c0 ++ [c_gt])) - 1 = 0.
 Proof.
   unfold self_close.
   destruct (str_eqb (oc_self_closing_style c0) s_xhtml); [reflexivity|].
